@@ -205,10 +205,10 @@ class FPA(Optimizer):
                 epsilon = r.generate_uniform_random_number()
 
                 # Generates an index for flower k
-                k = int(r.generate_uniform_random_number(0, len(agents)-1))
+                k = int(r.generate_uniform_random_number(0, len(agents)-1)[0])
 
                 # Generates an index for flower l
-                l = int(r.generate_uniform_random_number(0, len(agents)-1))
+                l = int(r.generate_uniform_random_number(0, len(agents)-1)[0])
 
                 # Update a temporary position according to local pollination
                 a.position = self._local_pollination(
